@@ -445,7 +445,9 @@ def main_for(chk: Check, pid: str):
     can, want = [], {}
     for r in clean:
         ev = r["events"]
-        opt_idx = [k for k, e in enumerate(ev) if e["ev"] == "Optimize" and e.get("raised") == "" and e.get("digest")]
+        refkeys = {(e["cfgid"], e["t"]) for e in ev if e["ev"] == "Ref" and e.get("raised") == ""}
+        opt_idx = [k for k, e in enumerate(ev) if e["ev"] == "Optimize" and e.get("raised") == "" and e.get("digest")
+                   and (e["cfgid"], e["t"]) in refkeys]
         if not opt_idx or len(can) >= 6:
             continue
         c = json.loads(json.dumps({"id": len(can) + 1, "events": ev}))
